@@ -11,6 +11,7 @@ import (
 	"runtime"
 	"runtime/debug"
 	"runtime/metrics"
+	"runtime/pprof"
 	"strconv"
 	"strings"
 	"syscall"
@@ -312,67 +313,77 @@ func (c *child) checkPayload(cmd string, payload []byte, tag string, oneByte boo
 		}
 		return
 	}
-	// consumed prefix: the type's decoder called directly on the same payload
-	m2 := sp.newEmpty()
-	src := common.NewZeroCopySource(payload)
-	var err2 error
-	if p := vf.Catch(func() { err2 = m2.Deserialization(src) }); p != nil {
-		c.violation("panic:"+name+":direct:"+panicClass(p), "direct Deserialization panicked where ReadMessage did not", nil)
-		return
-	}
-	if err2 != nil {
-		c.violation("nondeterministic:"+name, fmt.Sprintf("ReadMessage accepted the payload, a direct Deserialization rejected it: %v", err2), nil)
-		return
-	}
-	consumed := int(src.Pos())
-	if consumed > len(payload) {
-		c.violation("consumed:"+name, fmt.Sprintf("decoder position %d beyond payload length %d", consumed, len(payload)), nil)
-		return
-	}
-	if consumed < len(payload) {
-		c.count("accept_with_trailing_bytes")
-	}
 	var reser []byte
 	if p := vf.Catch(func() { reser = payloadOf(msg) }); p != nil {
 		c.violation("panic:"+name+":serialize:"+panicClass(p), fmt.Sprintf("Serialization of an accepted %s message panicked: %v", name, p), nil)
 		return
 	}
-	if bytes.Equal(reser, payload[:consumed]) {
+	identical := bytes.Equal(reser, payload)
+	if identical {
+		// the strongest form: the whole payload is reproduced (then the consumed prefix is the
+		// payload, and decoding the re-serialization is decoding the same bytes again)
 		c.count("reserialize_identical")
-		if consumed == len(payload) {
-			// whole-frame identity through WriteMessage
-			sink := common.NewZeroCopySink(nil)
-			if p := vf.Catch(func() { mt.WriteMessage(sink, msg) }); p != nil {
-				c.violation("panic:"+name+":WriteMessage:"+panicClass(p), "WriteMessage panicked on an accepted message", nil)
-			} else if !bytes.Equal(sink.Bytes(), fr) {
-				c.violation("frame:"+name, "WriteMessage(ReadMessage(frame)) != frame although the payload re-serializes identically",
-					map[string]interface{}{"rewritten_hex": vf.HexTrunc(sink.Bytes(), 256)})
-			} else {
-				c.count("frame_identical")
+	} else {
+		// consumed prefix: the type's decoder called directly on the same payload
+		m2 := sp.newEmpty()
+		src := common.NewZeroCopySource(payload)
+		var err2 error
+		if p := vf.Catch(func() { err2 = m2.Deserialization(src) }); p != nil {
+			c.violation("panic:"+name+":direct:"+panicClass(p), "direct Deserialization panicked where ReadMessage did not", nil)
+			return
+		}
+		if err2 != nil {
+			c.violation("nondeterministic:"+name, fmt.Sprintf("ReadMessage accepted the payload, a direct Deserialization rejected it: %v", err2), nil)
+			return
+		}
+		consumed := int(src.Pos())
+		if consumed > len(payload) {
+			c.violation("consumed:"+name, fmt.Sprintf("decoder position %d beyond payload length %d", consumed, len(payload)), nil)
+			return
+		}
+		if consumed < len(payload) {
+			c.count("accept_with_trailing_bytes")
+		}
+		if bytes.Equal(reser, payload[:consumed]) {
+			c.count("reserialize_identical_prefix")
+		} else if ex := exempt(cmd, payload, consumed, msg, reser); ex != "" {
+			c.count("exempt:" + ex)
+		} else {
+			cls := diffClass(payload[:consumed], reser)
+			if strings.HasPrefix(tag, "altkey") {
+				cls = "noncanonical-pubkey"
 			}
+			c.count("reserialize_mismatch")
+			c.violation("reserialize:"+name+":"+cls, fmt.Sprintf("accepted %s payload re-serializes to different bytes (%s): consumed %d bytes, re-serialization %d bytes", name, cls, consumed, len(reser)),
+				map[string]interface{}{"consumed": consumed, "consumed_hex": vf.HexTrunc(payload[:consumed], 2048), "reserialized_hex": vf.HexTrunc(reser, 2048), "first_diff_offset": firstDiffOff(payload[:consumed], reser)})
 		}
-	} else if ex := exempt(cmd, payload, consumed, msg, reser); ex != "" {
-		c.count("exempt:" + ex)
-	} else {
-		cls := diffClass(payload[:consumed], reser)
-		if strings.HasPrefix(tag, "altkey") {
-			cls = "noncanonical-pubkey"
-		}
-		c.count("reserialize_mismatch")
-		c.violation("reserialize:"+name+":"+cls, fmt.Sprintf("accepted %s payload re-serializes to different bytes (%s): consumed %d bytes, re-serialization %d bytes", name, cls, consumed, len(reser)),
-			map[string]interface{}{"consumed": consumed, "consumed_hex": vf.HexTrunc(payload[:consumed], 2048), "reserialized_hex": vf.HexTrunc(reser, 2048), "first_diff_offset": firstDiffOff(payload[:consumed], reser)})
 	}
-	// the re-serialization must decode to the same value again
-	m3 := sp.newEmpty()
-	var err3 error
-	if p := vf.Catch(func() { err3 = m3.Deserialization(common.NewZeroCopySource(reser)) }); p != nil {
-		c.violation("panic:"+name+":redecode:"+panicClass(p), "decoding the re-serialization panicked", nil)
-	} else if err3 != nil {
-		c.violation("redecode:"+name+":rejected", fmt.Sprintf("the re-serialization of an accepted message is rejected: %v", err3), map[string]interface{}{"reserialized_hex": vf.HexTrunc(reser, 2048)})
-	} else if a, b := canon(msg), canon(m3); a != b {
-		c.violation("redecode:"+name+":differs", "decode(serialize(m)) != m for an accepted message: "+firstDiff(a, b), nil)
-	} else {
-		c.count("redecode_equal")
+	if identical && (oneByte || len(payload) < 256) {
+		// whole-frame identity through WriteMessage
+		sink := common.NewZeroCopySink(nil)
+		if p := vf.Catch(func() { mt.WriteMessage(sink, msg) }); p != nil {
+			c.violation("panic:"+name+":WriteMessage:"+panicClass(p), "WriteMessage panicked on an accepted message", nil)
+		} else if !bytes.Equal(sink.Bytes(), fr) {
+			c.violation("frame:"+name, "WriteMessage(ReadMessage(frame)) != frame although the payload re-serializes identically",
+				map[string]interface{}{"rewritten_hex": vf.HexTrunc(sink.Bytes(), 256)})
+		} else {
+			c.count("frame_identical")
+		}
+	}
+	// the re-serialization must decode to the same value again (when it is the payload itself
+	// this is the same computation as above, so it is only sampled there)
+	if !identical || oneByte {
+		m3 := sp.newEmpty()
+		var err3 error
+		if p := vf.Catch(func() { err3 = m3.Deserialization(common.NewZeroCopySource(reser)) }); p != nil {
+			c.violation("panic:"+name+":redecode:"+panicClass(p), "decoding the re-serialization panicked", nil)
+		} else if err3 != nil {
+			c.violation("redecode:"+name+":rejected", fmt.Sprintf("the re-serialization of an accepted message is rejected: %v", err3), map[string]interface{}{"reserialized_hex": vf.HexTrunc(reser, 2048)})
+		} else if a, b := canon(msg), canon(m3); a != b {
+			c.violation("redecode:"+name+":differs", "decode(serialize(m)) != m for an accepted message: "+firstDiff(a, b), nil)
+		} else {
+			c.count("redecode_equal")
+		}
 	}
 	// delivery in 1-byte reads must not change the outcome
 	if oneByte {
@@ -634,9 +645,9 @@ func childMain(specStr string) {
 	// the machine's overcommit policy: cap the address space.
 	lim := syscall.Rlimit{Cur: 6 << 30, Max: 6 << 30}
 	syscall.Setrlimit(syscall.RLIMIT_AS, &lim)
-	// collect rarely: the workload is millions of short-lived small objects
-	debug.SetGCPercent(-1)
-	debug.SetMemoryLimit(768 << 20)
+	// the live heap is tiny and the workload is millions of short-lived objects: let the
+	// heap cycle inside the CPU cache instead of faulting in fresh pages
+	debug.SetGCPercent(400)
 
 	initKeys()
 	bs := batches()
@@ -665,6 +676,10 @@ func childMain(specStr string) {
 		ctr: map[string]int64{}, violSeen: map[string]int{}, seen: map[uint64]struct{}{}}
 	rng := vf.NewRNG(vf.Seed()).Sub(0xC24000 + uint64(bi))
 	t0 := time.Now()
+	if pf := os.Getenv("C24_PROF"); pf != "" {
+		f, _ := os.Create(fmt.Sprintf("%s.%d", pf, bi))
+		pprof.StartCPUProfile(f)
+	}
 	func() {
 		// every call into the code under test sits in vf.Catch, so a panic that reaches this
 		// frame comes from the harness (generator, mutator): infrastructure failure, exit 95
@@ -688,5 +703,6 @@ func childMain(specStr string) {
 	fpf.Close()
 	out.Close()
 	lg.Close()
+	pprof.StopCPUProfile()
 	os.Exit(0)
 }
